@@ -530,6 +530,16 @@ func normIte(c, a, b *Term) *Term {
 			a, b = b, a
 			continue
 		}
+		// one spelling per ordering test: x <= y ? a : b  is  x > y ? b : a
+		if c.Op == "bin" && (c.Sym == "<=" || c.Sym == ">=") {
+			ns := ">"
+			if c.Sym == ">=" {
+				ns = "<"
+			}
+			c = &Term{Op: "bin", Sym: ns, Args: c.Args, Val: c.Val, Typ: c.Typ}
+			a, b = b, a
+			continue
+		}
 		break
 	}
 	if a.String() == b.String() {
